@@ -225,7 +225,7 @@ def run(ctx):
         tp = [(a, b) for a in idx for b in idx if a != b]
         pairs += rnd.sample(tp, min(len(tp), 120)) if ctx.quick() else tp
     chosen = set(pairs)
-    want = len(pairs) + (200 if ctx.quick() else 4000)
+    want = len(pairs) + (120 if ctx.quick() else 4000)
     nbase = sum(1 for p in pool if p.get("grp", -1) < 0)
     while len(pairs) < want:
         # two thirds of the random pairs from the base pool (all kinds), one third anywhere
@@ -256,7 +256,7 @@ def run(ctx):
                 mem.append((i, j, m["dict"][j] == "T", m["set"][j] == "T"))
     band_mem = [q for q in mem if any(q[0] in g_[:2] and q[1] in g_[:2] for g_ in groups.values())]
     if ctx.quick():
-        mem = band_mem + rnd.sample(mem, min(len(mem), 120))
+        mem = band_mem + rnd.sample(mem, min(len(mem), 80))
     else:
         mem = band_mem + rnd.sample(mem, min(len(mem), 2000))
     for (i, j, d, s) in mem:
